@@ -10,6 +10,7 @@ import os
 
 from . import common as C
 from . import c15sl
+from . import c15ch
 
 SPEC = os.path.join(C.VERIF, "spec", "reflect")
 
@@ -113,6 +114,8 @@ def parse(text):
                                                  "after": f[7], "fmt": f[8].strip()}
         elif w and w[0] == "D":
             c15sl.parse_line(ln, out)
+        elif w and w[0] == "K":
+            c15ch.parse_line(ln, out)
     return out
 
 
@@ -127,7 +130,7 @@ def differing(expect, got):
         for f in e:
             if g.get(f) != e[f]:
                 out.append((k, f))
-                if not k.startswith("D"):
+                if not k.startswith(("D", "K")):
                     break
     return out
 
@@ -168,6 +171,11 @@ def run(chk):
     calls.append(sl_call)
     expect.update(sl_expect)
     meta.update(sl_meta)
+    for part in c15ch.prepare(chk),:
+        src.append(part[0])
+        calls.append(part[1])
+        expect.update(part[2])
+        meta.update(part[3])
     src.append("func main() {\n" + "\n".join(calls) + '\n\tprintln("RODONE")\n}')
     d = os.path.join(chk.rd.path, "c15roprog")
     C.write_module(d, {"main.go": "\n\n".join(src) + "\n"}, modname="c15ro")
@@ -210,12 +218,20 @@ def run(chk):
         if k.startswith("D"):
             groups.setdefault(c15sl.key_of(meta[k], f), []).append((k, f))
             continue
+        if k.startswith("K"):
+            groups.setdefault(c15ch.key_of(meta[k], f), []).append((k, f))
+            continue
         what = f if k.startswith("R") else "fmt-root"
         groups.setdefault("readonly:%s:%s" % (meta[k]["class"], what), []).append(k)
     for key, ks in sorted(groups.items()):
         k = ks[0]
         if isinstance(k, tuple):
             k, f = k
+            if k.startswith("K"):
+                chk.reject(key, c15ch.describe(meta[k], f, len(ks), expect[k], got.get(k)),
+                           {"dirs": meta[k]["dirs"], "go_type": c15ch.gosrc(meta[k]["dirs"]), "query": f, "want": expect[k], "got": got.get(k),
+                            "all_failing": [c15ch.gosrc(meta[x]["dirs"]) for x, _ in ks]})
+                continue
             chk.reject(key, c15sl.describe(meta[k], f, len(ks), expect[k], got.get(k)),
                        {"a": meta[k]["a"], "b": meta[k]["b"], "a_go": c15sl.goexpr(meta[k]["a"]), "b_go": c15sl.goexpr(meta[k]["b"]),
                         "wrap": f, "want": expect[k], "got": got.get(k), "failing_pairs": len(ks)})
